@@ -191,6 +191,12 @@ func (msg MsgInitiateTokenDeposit) Validate(ac address.Codec) error {
 		return ErrInvalidAmount
 	}
 
+	// the withdrawal leaf format carries the amount as uint64, so a larger deposit
+	// could never be withdrawn back to l1
+	if !msg.Amount.Amount.IsUint64() {
+		return ErrInvalidAmount.Wrap("amount exceeds uint64")
+	}
+
 	if msg.BridgeId == 0 {
 		return ErrInvalidBridgeId
 	}
